@@ -77,6 +77,16 @@ def f_parse(case):
     Tk = pm.pauli(tok[0])
     l3, k3 = Bk.read_pauli(Tk)
     check((l3 == l).all() and k3 == kk, 'pauli(P.tokenize()[0]) = %s, P = %s' % (ref.show(l3, k3), ref.show(l, kk)), 'token-roundtrip')
+    # a parsed operator is a fresh object: mutating it in place must not change what the same description parses to next time
+    if not fmt.startswith('dict'):
+        if be == 'np':
+            P1 = pm.pauli(*args)
+            P1.rotate_by(Bk.pauli(np.array([1 + (int(letters[0]) % 3)] + [0] * (N - 1)), 0))
+            P1.g[:] = 1 - P1.g
+            P1.p = (P1.p + 1) % 4
+        P2 = pm.pauli(*render(fmt, letters, k, case['variant'], be)[0])
+        l5, k5 = Bk.read_pauli(P2)
+        check((l5 == letters).all() and k5 == kexp, 'parsing the same description again after mutating the first result gives %s, expected %s' % (ref.show(l5, k5), ref.show(letters, kexp)), 'parse-shared')
     # idempotence on Pauli input
     check(pm.pauli(P) is P, 'pauli(P) is not P', 'pauli-idempotent')
     # scalar factors; every derived operator must itself print / tokenize / re-parse (its stored phase must be usable, not only its value mod 4)
@@ -128,6 +138,15 @@ def f_list(case):
         K = 0 * K
     l, k = Bk.read_list(P)
     C.expect_list((l, k), (L, K), 'paulis(%s as %s)' % (strs, how), 'paulis')
+    if how in ('varargs', 'list', 'tuple') and be == 'np':
+        # the list owns its data: mutating it must not leak into a later parse of the same strings
+        Pm = pm.paulis(*strs) if how == 'varargs' else pm.paulis(list(strs))
+        Pm.gs[:] = 1 - Pm.gs
+        Pm.ps[:] = (Pm.ps + 1) % 4
+        for one in strs[:2]:
+            q1 = pm.pauli(one); q1.g[:] = 1 - q1.g
+        again = pm.paulis(list(strs))
+        C.expect_list(Bk.read_list(again), (L, K), 'paulis(%s) parsed again after mutating an earlier result' % strs, 'parse-shared')
     check(len(P) == n and P.L == n and P.N == N, 'len/L/N = %r/%r/%r expected %d/%d/%d' % (len(P), P.L, P.N, n, n, N), 'len')
     w = Bk.num(P.weight())
     check((w == (L != 0).sum(-1)).all(), 'weight %s' % w.tolist(), 'weight')
